@@ -252,6 +252,9 @@ def random_name(rng, taken, wide=False):
 
 def random_number_token(rng):
     r = rng.random()
+    if r < 0.04:
+        # the numbers other formats reserve for "absent": in a DAT file they are numbers like any other
+        return rng.choice(['-999.25', '-999.250', '-999.2500', '-999', '-9999', '-999.0', '-9999.25', '-32768', '1e30', '-1e30'])
     if r < 0.2:
         return str(rng.choice([0, 0, 1, rng.randrange(0, 100000)]))
     if r < 0.75:
